@@ -51,7 +51,7 @@ thread_local! {
 
 fn real_traffic(seed: u64, len: usize) -> Option<verif::TallyCopy> {
     let mut rng = Rng::new(seed);
-    let mut live: [(*mut u8, usize); 32] = [(std::ptr::null_mut(), 0); 32];
+    let mut live: [(*mut u8, usize, usize); 32] = [(std::ptr::null_mut(), 0, 8); 32];
     let mut n = 0usize;
     // Measuring a thread (creating / clearing / reading its tally) must not itself issue allocator requests.
     evlog::log_raw(evlog::NOTE, 12, seed, 0);
@@ -68,24 +68,26 @@ fn real_traffic(seed: u64, len: usize) -> Option<verif::TallyCopy> {
         unsafe {
             match rng.below(10) {
                 0..=3 if n < 32 => {
-                    let l = Layout::from_size_align(size, 8).unwrap();
+                    // alignments from 1 to a page, sizes that need not be multiples of them
+                    let align = [8usize, 8, 1, 2, 16, 32, 64, 128, 4096][rng.below(9) as usize];
+                    let l = Layout::from_size_align(size, align).unwrap();
                     let p = if rng.below(3) == 0 { alloc_zeroed(l) } else { alloc(l) };
                     assert!(!p.is_null());
-                    live[n] = (p, size);
+                    live[n] = (p, size, align);
                     n += 1;
                 }
                 4..=6 if n > 0 => {
                     let i = rng.below(n as u64) as usize;
-                    let (p, old) = live[i];
+                    let (p, old, align) = live[i];
                     let new = if rng.below(4) == 0 { old } else { size };
-                    let np = realloc(p, Layout::from_size_align(old, 8).unwrap(), new);
+                    let np = realloc(p, Layout::from_size_align(old, align).unwrap(), new);
                     assert!(!np.is_null());
-                    live[i] = (np, new);
+                    live[i] = (np, new, align);
                 }
                 _ if n > 0 => {
                     let i = rng.below(n as u64) as usize;
-                    let (p, old) = live[i];
-                    dealloc(p, Layout::from_size_align(old, 8).unwrap());
+                    let (p, old, align) = live[i];
+                    dealloc(p, Layout::from_size_align(old, align).unwrap());
                     n -= 1;
                     live[i] = live[n];
                 }
@@ -98,7 +100,7 @@ fn real_traffic(seed: u64, len: usize) -> Option<verif::TallyCopy> {
     let tally = verif::thread_tally();
     evlog::log_raw(evlog::NOTE, 13, seed, 1);
     for item in live.iter().take(n) {
-        unsafe { dealloc(item.0, Layout::from_size_align(item.1, 8).unwrap()) };
+        unsafe { dealloc(item.0, Layout::from_size_align(item.1, item.2).unwrap()) };
     }
     tally
 }
